@@ -18,7 +18,47 @@ class _H(S.TftpRequestHandler):
         raise AssertionError("not called")
 
 
-def observe(c):
+class _Stop(Exception):
+    pass
+
+
+def through_cli(c):
+    """the keyword arguments vinegar.cli.server._run_server_internal hands to create_tftp_server for the
+    configuration {"tftp": {...}} (a key whose value is None must arrive as None, not fall back to the default)"""
+    import vinegar.cli.server as CLI
+    import vinegar.http.server as H
+    got = {}
+
+    def fake_tftp(handlers, **kw):
+        got.update(kw)
+        raise _Stop()
+    old_t, old_h = S.create_tftp_server, H.create_http_server
+    S.create_tftp_server = fake_tftp
+    H.create_http_server = lambda handlers, **kw: None
+    try:
+        CLI._run_server_internal({"tftp": {"default_timeout": c[0], "max_timeout": c[1], "max_retries": c[2],
+                                           "max_block_size": c[3], "block_counter_wrap_value": c[4],
+                                           "request_handlers": []}})
+    except _Stop:
+        pass
+    finally:
+        S.create_tftp_server, H.create_http_server = old_t, old_h
+    return (got.get("default_timeout", "missing"), got.get("max_timeout", "missing"), got.get("max_retries", "missing"),
+            got.get("max_block_size", "missing"), got.get("block_counter_wrap_value", "missing"))
+
+
+def observe(c, cli=True):
+    if cli:
+        k = through_cli(c)
+        if "missing" in k:
+            # a configured key did not reach create_tftp_server: the server then runs with its default for it
+            dflt = (10, 30, 3, 65464, 0)
+            k = tuple(dflt[i] if k[i] == "missing" else k[i] for i in range(5))
+        c = k
+    return observe_server(c)
+
+
+def observe_server(c):
     """c = (default_tmo, max_tmo, retries, max_bs, wrap); wrap may be None/int/bool -> the same five as they reach
     the transfer"""
     seen = []
@@ -70,7 +110,7 @@ def replay(case):
     return (enc(o), r[0], names(r[1]), names(r[2]))
 
 
-def cfg_checks(tier, rng, report):
+def cfg_checks(tier, rng, report, prefix=""):
     t0 = time.time()
     stats = {"server_config_cases": 0, "server_config_disagreements": 0, "server_config_impl_failures": 0}
     failing = []
